@@ -391,6 +391,7 @@ func checkC19(w *World, r *Report) {
 	r.Explanation += " Rules added in later rounds: (R19.5) values are measured by kind, never through interfaces with methods."
 	r.Explanation += " Round 9: (R19.6) no interface value is compared with a boxed numeric constant."
 	r.Explanation += " Round 10: (R19.1) a []byte value is not re-read as text in one sibling only."
+	r.Explanation += " Round 11: (R19.7) filter chains run to the end."
 	r.RuleText = "obligation = one string-measuring construct in a sibling implementation / one optional-argument default; non-trivial = all"
 	r.Trusted = []string{"the set of sibling implementations is resolved from the registration tables by the Twig names length/count/first/last/slice/reverse"}
 
@@ -400,6 +401,7 @@ func checkC19(w *World, r *Report) {
 	checkSortComparators(w, r)
 	checkMeasureByShape(w, r)
 	checkNoBoxedNumberComparisons(w, r)
+	checkFilterChainsRunToTheEnd(w, r, "R19.7")
 	// R19.3: the emptiness routine behind `default` (and the empty test)
 	nz := checkZeroTests(w, r, "R19.3", func(f *types.Func) bool { return f.Name() == "isEmptyValue" }, "treated as non-empty: `default` does not replace it although it replaces int 0")
 	r.Counts["zero tests in the emptiness routine"] = nz
@@ -849,4 +851,112 @@ func checkNoBoxedNumberComparisons(w *World, r *Report) {
 		})
 	}
 	r.Counts["comparisons of interface values with boxed numeric constants"] = n
+}
+
+// checkFilterChainsRunToTheEnd — R19.7: every filter written in a chain is applied.  In a function
+// that walks a list of filter-chain items and applies each (a call of ApplyFilter inside the
+// loop), the loop is left before the list is exhausted only by a return that carries the error of
+// a filter: no `break` on a nil or empty intermediate value.  `default`, `length`, `escape` are
+// written precisely to be applied to such values — `[]|first|default('x')` has to reach default.
+func checkFilterChainsRunToTheEnd(w *World, r *Report, rule string) {
+	apply := w.method("RenderContext", "ApplyFilter")
+	itemT := w.named("FilterChainItem")
+	n := 0
+	for _, fn := range w.pkgFuncs() {
+		var site ssa.Instruction
+		instrsOf(fn, func(in ssa.Instruction) {
+			if c, ok := in.(ssa.CallInstruction); ok && calleeFunc(c) == apply && site == nil {
+				site = in
+			}
+		})
+		if site == nil {
+			continue
+		}
+		// the loop around the call that walks a []FilterChainItem
+		var h *ssa.BasicBlock
+		for d := site.Block(); d != nil && h == nil; d = d.Idom() {
+			for _, p := range d.Preds {
+				if d.Dominates(p) {
+					h = d
+				}
+			}
+		}
+		if h == nil {
+			continue
+		}
+		walks := false
+		instrsOf(fn, func(in ssa.Instruction) {
+			if ia, ok := in.(*ssa.IndexAddr); ok {
+				if sl, ok := ia.X.Type().Underlying().(*types.Slice); ok && types.Identical(sl.Elem(), itemT) {
+					walks = true
+				}
+			}
+		})
+		if !walks {
+			continue
+		}
+		n++
+		body := map[*ssa.BasicBlock]bool{h: true}
+		var stack []*ssa.BasicBlock
+		for _, p := range h.Preds {
+			if h.Dominates(p) && !body[p] {
+				body[p] = true
+				stack = append(stack, p)
+			}
+		}
+		for len(stack) > 0 {
+			b := stack[len(stack)-1]
+			stack = stack[:len(stack)-1]
+			for _, p := range b.Preds {
+				if !body[p] {
+					body[p] = true
+					stack = append(stack, p)
+				}
+			}
+		}
+		ei := errResultIndex(fn.Signature)
+		bad := ""
+		for b := range body {
+			if b == h {
+				continue
+			}
+			for _, s := range b.Succs {
+				if body[s] {
+					continue
+				}
+				// leaving from inside: fine if every path from s returns a non-nil error at once
+				okExit := false
+				if len(s.Instrs) > 0 {
+					if ret, isRet := s.Instrs[len(s.Instrs)-1].(*ssa.Return); isRet && ei >= 0 {
+						res := retResults(ret)
+						if ei < len(res) && !isNilConst(res[ei]) {
+							okExit = true
+						}
+					}
+				}
+				if !okExit {
+					bad = w.posOf(b.Instrs[len(b.Instrs)-1].Pos())
+					if bad == "" || bad == "-" {
+						bad = fmt.Sprintf("block %d", b.Index)
+					}
+				}
+			}
+			// a return inside the body itself
+			if len(b.Instrs) > 0 {
+				if ret, isRet := b.Instrs[len(b.Instrs)-1].(*ssa.Return); isRet && ei >= 0 {
+					res := retResults(ret)
+					if ei < len(res) && isNilConst(res[ei]) {
+						bad = w.posOf(ret.Pos())
+					}
+				}
+			}
+		}
+		construct := "the walk over the filter chain ends by exhaustion or with a filter's error"
+		if bad == "" {
+			r.ok(rule, ssaName(fn), construct, w.posOf(site.Pos()), "no other way out of the loop", true)
+		} else {
+			r.bad(rule, ssaName(fn), construct, w.posOf(site.Pos()), "the loop that applies the filters can be left ("+bad+") before the chain is exhausted and without an error: the filters written after that point — default, length, escape — are silently not applied, so a chain gives another result than the same filters applied one after the other")
+		}
+	}
+	r.floor("loops applying a filter chain", n, 1)
 }
